@@ -179,7 +179,7 @@ fn static_array_probe(n: usize) -> Option<Data<'static>> {
 /// Is this an SND operation with a page literal that Page::from_bytes refuses?
 pub fn snd_unconstructible(op: &str) -> bool {
     let p: Vec<&str> = op.splitn(3, '.').collect();
-    (p[0] == "SND" || p[0] == "SNP" || p[0] == "SNW" || p[0] == "SNL") && guarded(|| try_pages_of_str(p[2]).is_none()).unwrap_or(true)
+    (p[0] == "SND" || p[0] == "SNP" || p[0] == "SNW" || p[0] == "SNL" || p[0] == "SNQ") && guarded(|| try_pages_of_str(p[2]).is_none()).unwrap_or(true)
 }
 
 thread_local! {
@@ -239,6 +239,17 @@ pub fn run_cop_on(sign: &Sign, op: &str) -> Option<Result<String, SignError>> {
                 if let Some(b) = &bus {
                     let _look = b.borrow();
                 }
+            });
+            guarded(|| sign.send_pages(it).map(|s| format!(".{}", str_style(s))))
+        }
+        "SNQ" => {
+            // the caller's iterator drains a queue that all its clones share (pages handed out once, as they are rendered):
+            // a clone of it is not a second copy of the list
+            let pages = pages_of_str(p[2]);
+            let queue: Rc<RefCell<VecDeque<&Page<'static>>>> = Rc::new(RefCell::new(pages.iter().collect()));
+            let it = std::iter::from_fn({
+                let q = queue.clone();
+                move || q.borrow_mut().pop_front()
             });
             guarded(|| sign.send_pages(it).map(|s| format!(".{}", str_style(s))))
         }
@@ -535,10 +546,13 @@ fn eval_case_inner(line: &str) -> String {
             // flags before the messages: "!" an earlier failed write elsewhere; "@" an earlier write elsewhere (on another
             // thread) whose sink PANICKED, and an earlier read whose source panicked; "$" the last frame of the stream lacks
             // its CR LF (the terminator is optional)
-            let nflags = t[1..].iter().take_while(|x| ["!", "@", "$"].contains(x)).count();
+            let nflags = t[1..].iter().take_while(|x| ["!", "@", "$", "&"].contains(x)).count();
             let flags = &t[1..1 + nflags];
             let failed_first = flags.contains(&"!");
             let unterminated = flags.contains(&"$");
+            // "&": the stream is a sink that, for everything it is given, also writes a carrier frame of its own with
+            // Frame::write into a second buffer (a tunnel): writing a frame from inside the writing of a frame
+            let tunnel = flags.contains(&"&");
             if flags.contains(&"@") {
                 struct Bomb;
                 impl std::io::Write for Bomb {
@@ -584,9 +598,47 @@ fn eval_case_inner(line: &str) -> String {
                     let _ = Frame::from(msg_of_str("RS.4660.PSH")).write(&mut Failing(5));
                 }
                 let mut stream: Vec<u8> = vec![];
-                for m in &msgs {
-                    if Frame::from(m.clone()).write(&mut stream).is_err() {
-                        return "ER WRITE".to_string();
+                if tunnel {
+                    struct Tunnel {
+                        direct: Vec<u8>,
+                        carrier: Vec<u8>,
+                    }
+                    impl std::io::Write for Tunnel {
+                        fn write(&mut self, buf: &[u8]) -> std::io::Result<usize> {
+                            let n = buf.len().min(200);
+                            let f = Frame::new(Address(0x7E7E), MsgType(0x7E), Data::try_new(buf[..n].to_vec()).expect("at most 200 bytes"));
+                            f.write(&mut self.carrier).map_err(|_| std::io::Error::new(std::io::ErrorKind::Other, "carrier"))?;
+                            self.direct.extend_from_slice(&buf[..n]);
+                            Ok(n)
+                        }
+                        fn flush(&mut self) -> std::io::Result<()> {
+                            Ok(())
+                        }
+                    }
+                    let mut tn = Tunnel { direct: vec![], carrier: vec![] };
+                    for m in &msgs {
+                        if Frame::from(m.clone()).write(&mut tn).is_err() {
+                            return "ER WRITE".to_string();
+                        }
+                    }
+                    // the carrier frames, read back, carry exactly the bytes of the direct stream
+                    let mut cur = std::io::Cursor::new(tn.carrier);
+                    let mut carried: Vec<u8> = vec![];
+                    while (cur.position() as usize) < cur.get_ref().len() {
+                        match Frame::read(&mut cur) {
+                            Ok(f) => carried.extend_from_slice(f.data()),
+                            Err(_) => return "ER CARRIER".to_string(),
+                        }
+                    }
+                    if carried != tn.direct {
+                        return "ER CARRIER-DIFFERS".to_string();
+                    }
+                    stream = tn.direct;
+                } else {
+                    for m in &msgs {
+                        if Frame::from(m.clone()).write(&mut stream).is_err() {
+                            return "ER WRITE".to_string();
+                        }
                     }
                 }
                 if unterminated && stream.len() >= 2 {
